@@ -164,9 +164,75 @@ def h_order_gen(ctx: Any, size: int, twin: bool = False) -> None:
         ctx.check(a == b, f'C18.order-dependent-output[generated-chain|{n}]', lambda: f'chain over p={p!s} q={q!s} r={r!s}, policy {pol!r}: {n} has {len(b)} bytes, {len(a)} under the natural order')
 
 
+def _refl_pool(small: bool = False) -> list:
+    from proof_generation import pattern as P
+
+    z = P.App(P.Symbol('f'), P.Symbol('c'))
+    y = P.Implies(z, P.MetaVar(0))
+    x = P.Exists(0, y)
+    pool = [z, y, x]
+    for w in ((z, x) if small else (z, y, x)):
+        for j in (10, 11):
+            pool.append(P.Implies(w, P.MetaVar(j)))
+    return pool
+
+
+def h_order_refl(ctx: Any, nterms: int, small: bool = False, twin: bool = False) -> None:
+    """generated "reflexivity facts" theories: claims T -> T proved by imp_refl(T) for every nterms-subset of a pool of
+    nested terms sharing sub-patterns (equal memoisation scores are frequent there), optimised serialisation under the
+    global re-ordering policies"""
+    from itertools import combinations
+
+    from .. import c18_child
+    from proof_generation.proof import ProofExp
+    from proof_generation.proofs.propositional import Propositional
+    from proof_generation import pattern as P
+
+    pool = _refl_pool(small)
+    combos = list(combinations(range(len(pool)), nterms))
+    pick = combos[ctx.choose(len(combos), 'terms')]
+    terms = [pool[i] for i in pick]
+    if ctx.choose(2, 'declaration order') == 1:
+        terms.reverse()
+
+    def build() -> Any:
+        class Refl(ProofExp):
+            def __init__(self) -> None:
+                super().__init__()
+                prop = self.import_module(Propositional())
+                for t in terms:
+                    self.add_claim(P.Implies(t, t))
+                    self.add_proof_expression(prop.imp_refl(t))
+
+        return Refl()
+
+    nondet.ACTIVE = False
+    base = c18_child.outputs(build(), True)
+    pol = POLICIES[ctx.choose(len(POLICIES), 'policy')]
+    nondet.POLICY = pol
+    nondet.MAX_DEVIATIONS = 0
+    nondet.ACTIVE = True
+    if not ctx.symbolic:
+        symx.CTX = ctx
+    try:
+        got = c18_child.outputs(build(), True)
+    finally:
+        nondet.ACTIVE = False
+        nondet.POLICY = ''
+        if not ctx.symbolic:
+            symx.CTX = None
+    ctx.count('reached')
+    ctx.sample({'terms': [str(t) for t in terms], 'policy': pol})
+    if twin:
+        ctx.violation('TWIN')
+    names = ('ml-gamma', 'ml-claim', 'ml-proof', 'pretty-gamma', 'pretty-claim', 'pretty-proof')
+    for n, a, b in zip(names, base, got):
+        ctx.check(a == b, f'C18.order-dependent-output[generated-reflexivity-theory|{n}]', lambda: f'claims T -> T for T in {[str(t) for t in terms]}, policy {pol!r}: {n} has {len(b)} bytes, {len(a)} under the natural order')
+
+
 # -- histories in fresh processes --------------------------------------------------------------------
 
-MENU = ('direct', 'schematic', 'chain', 'small_theory')
+MENU = ('direct', 'schematic', 'chain', 'small_theory', 'neg-known', 'neg-raw')
 
 
 def _child(seq: list) -> Any:
@@ -230,6 +296,9 @@ def levels(tier: str) -> list[dict]:
             dv = 1 if mod in ('substitution',) else 2
             L.append(dict(label=f'orders/{mod}/optimize={opt}/deviating-iterations<={dv}', module=M, fn='h_order', kwargs=dict(module=mod, optimize=opt, deviations=dv), budget_s=bud, required=True, twin=(mod == 'chain' and opt)))
     L.append(dict(label=f'orders/generated-chains/patterns<={2 if q else 3}', module=M, fn='h_order_gen', kwargs=dict(size=2 if q else 3), budget_s=bud, required=True, twin=False))
+    L.append(dict(label='orders/generated-reflexivity-theories/claims=4/pool=7', module=M, fn='h_order_refl', kwargs=dict(nterms=4, small=True), budget_s=bud, required=True, twin=False))
+    for nt in (() if q else (3, 4, 5)):
+        L.append(dict(label=f'orders/generated-reflexivity-theories/claims={nt}/pool=9', module=M, fn='h_order_refl', kwargs=dict(nterms=nt), budget_s=bud, required=True, twin=False))
     for bench in ('impreflex-compressed-goal', 'two-variables') + (() if q else ('transfer-simple-compressed-goal',)):
         L.append(dict(label=f'orders/metamath:{bench}/optimize=True', module=M, fn='h_order', kwargs=dict(module=f'mm:{bench}', optimize=True), budget_s=bud, required=False, twin=False))
     return L
